@@ -294,12 +294,12 @@ def rule_d(ctx, idx, A):
     ctx.floor("C01.d", "execute bodies scanned", n_exec, 30)
 
 
-def rule_e(ctx, idx, A):
+def rule_e(ctx, idx, A, rule="C01.e", text=None):
     ctx.rule(
-        "C01.e",
+        rule,
         "For every command and every input declared Result(...) or List(...Result...), the effective execute takes "
         "`.result` of it (of every element, unsliced and unfiltered) on every path to a normal return "
-        "(must-pass-through on the CFG; super().execute(**kwargs) delegation followed).",
+        "(must-pass-through on the CFG; super().execute(**kwargs) delegation followed)." + (" " + text if text else ""),
     )
     n_cmd = n_ref = 0
     for d in K.table(idx):
@@ -307,24 +307,39 @@ def rule_e(ctx, idx, A):
         refs = d.ref_inputs()
         if d.execute is None or d.execute.cls is A.command:
             continue
+        # the object whose `.result` is taken must be the referenced command itself: a deep copy of the keyword
+        # arguments (or of a reference) clones the dependency together with its program, the clone is what runs, and the
+        # program's own command stays unfinished until something else runs it a second time
+        clones = []
+        if refs:
+            kwn = d.execute.node.args.kwarg.arg if d.execute.node.args.kwarg else None
+            for f_ in K.helper_closure(idx, d.execute):
+                for c_ in own_nodes(f_.node):
+                    if isinstance(c_, ast.Call) and (idx.qualname(f_.module, c_.func, f_) or "") in ("copy.deepcopy", "pickle.loads") and c_.args:
+                        names = K.names_in(c_.args[0])
+                        if (kwn and kwn in names) or f_ is not d.execute or any(nm in names for nm in K.derived_names(d.execute, {kwn} if kwn else set())):
+                            clones.append(c_)
+        for c_ in clones[:1]:
+            ctx.violate(rule, "%s::clone-of-references" % d.key, d.module.rel, c_.lineno,
+                        "`%s` deep-copies values that hold the referenced commands: `.result` is then taken from clones, so the dependency's code runs on a clone while the program's own command stays unfinished and is executed again later" % K.src(c_)[:60])
         for p, (kind, _) in sorted(refs.items()):
             n_ref += 1
             ok, why, line = coverage.pulls(idx, d.cls, d.execute, p, kind)
             con = "%s::pull(%s)" % (d.key, p)
             if ok:
-                ctx.hold("C01.e", con, d.module.rel, line, why)
+                ctx.hold(rule, con, d.module.rel, line, why)
             else:
-                ctx.violate("C01.e", con, d.module.rel, line, why)
-    ctx.floor("C01.e", "command classes", n_cmd, 30)
-    ctx.floor("C01.e", "reference inputs", n_ref, 30)
+                ctx.violate(rule, con, d.module.rel, line, why)
+    ctx.floor(rule, "command classes", n_cmd, 30)
+    ctx.floor(rule, "reference inputs", n_ref, 30)
 
 
 def rule_f(ctx, idx, A):
     ctx.rule(
         "C01.f",
-        "Program.run starts every command that can be unconsumed: (i) an unfiltered loop over self.commands calling "
-        "run()/result on every path, or (ii) a loop skipping only commands recorded in a dependents map whose keys "
-        "flow only from cleaned values of reference inputs; the loop lies on every path to the normal exit.",
+        "Program.run starts every command: an unfiltered loop over self.commands calling run()/result lies on every "
+        "path to the normal exit (a leaf-first loop may precede it; on its own it leaves commands whose only consumer "
+        "does not read them unexecuted, and mis-recorded consumers hide commands altogether).",
     )
     fi = A.program_run
     res = coverage.start_coverage(idx, A)
@@ -332,7 +347,9 @@ def rule_f(ctx, idx, A):
     if res.kind == "unfiltered":
         ctx.hold("C01.f", con, K.rel(fi), res.line, "unfiltered loop over the command table starts every command: %s" % res.text)
     elif res.kind == "filtered-ok":
-        ctx.hold("C01.f", con, K.rel(fi), res.line, "leaf loop skips only commands with a recorded consumer; map keys flow from cleaned reference values (%s)" % res.text)
+        # exact bookkeeping is not enough: a recorded consumer executes its producer only if it reads that input, which
+        # C01.e establishes for the built-in commands but nothing establishes for a user library's commands
+        ctx.violate("C01.f", con, K.rel(fi), res.line, "Program.run starts only the commands nobody consumes (%s) and relies on every consumer reading every input it declares: a command referenced only by a consumer that does not read that input on this run (a user-library switch, an optional input) is never executed, and run() returns with it unfinished" % res.text)
     elif res.kind == "bad":
         ctx.violate("C01.f", con, K.rel(fi), res.line, res.text)
     else:
